@@ -30,6 +30,10 @@ func UnmarshalAnnouncements(data []byte) (announcements []Announcement, err erro
 	if l, cErr := cboring.ReadArrayLength(buff); cErr != nil {
 		err = cErr
 		return
+	} else if l > uint64(buff.Len()) {
+		// Every announcement needs at least one octet: never allocate for a count that the data cannot hold.
+		err = fmt.Errorf("array of %d announcements exceeds the %d remaining octets", l, buff.Len())
+		return
 	} else {
 		announcements = make([]Announcement, l)
 	}
